@@ -268,18 +268,31 @@ def gen_divzero_contract(rnd: random.Random, ops=None, name: str = "DivZeroTest"
             "eq5": (True, [("PUSH", 5), "EQ"], [(5, 0), (M256 - 5, 0)], False),
             "z": (True, ["ISZERO"], [(5, 0), (0, 0)], True),
             "r": (False, [("PUSH", c), "EQ"], [wr, (c, 0), (0, 0)], True),
+            # if (y == 0 && x != 0) { if (x op y == 0) panic }: fails for every non-zero x with y = 0 (and only there)
+            "znz": ("xnz", ["ISZERO"], [(5, 0), (M256 - 5, 0), (0, 0)], True),
         }
+        # "late": the operation is computed first, with a symbolic divisor (so it goes through the abstraction halmos refines
+        # later); only then the path learns y == 0:  r = x op y; if (y == 0 && x != 0 && r == 0) panic  - fails for x != 0, y = 0
+        bad, endp = lab(), lab()
+        body = xopy(op) + arg(1) + [("PUSHL", endp), "JUMPI"] + arg(0) + ["ISZERO", ("PUSHL", endp), "JUMPI", "ISZERO", ("PUSHL", bad), "JUMPI", "STOP",
+                                                                 ("LABEL", endp), "POP", "STOP", ("LABEL", bad)] + panic(1)
+        sig = f"check_{op.lower()}_late(uint256,uint256)"
+        fns.append(Fn(sig, body))
+        metas.append(TestMeta(sig, 2, [sorted(set(xs)), sorted(set(ys))], [(5, 0), (M256 - 5, 0), (0, 0), (5, 7)], f"r=a0 {op} a1; if(a1==0 && a0!=0 && r==0) panic",
+                              uses_div=True, leaves={"panic1", "ok"}))
         for vn, (guard, test, wit, _fails) in variants.items():
             bad, end = lab(), lab()
             body = []
             if guard:
                 body += arg(1) + [("PUSHL", end), "JUMPI"]  # y != 0 -> nothing to check
+            if guard == "xnz":
+                body += arg(0) + ["ISZERO", ("PUSHL", end), "JUMPI"]  # x == 0 -> nothing to check
             body += xopy(op) + test + [("PUSHL", bad), "JUMPI", ("LABEL", end), "STOP", ("LABEL", bad)] + panic(1)
             if not guard:
                 body = xopy(op) + test + [("PUSHL", bad), "JUMPI", "STOP", ("LABEL", bad)] + panic(1)
             sig = f"check_{op.lower()}_{vn}(uint256,uint256)"
             fns.append(Fn(sig, body))
-            desc = (f"if(a1==0){{if((a0 {op} a1) {test}) panic}}" if guard else f"if((a0 {op} a1)=={c}) panic")
+            desc = (f"if(a1==0{' && a0!=0' if guard == 'xnz' else ''}){{if((a0 {op} a1) {test}) panic}}" if guard else f"if((a0 {op} a1)=={c}) panic")
             metas.append(TestMeta(sig, 2, [sorted(set(xs + [w[0] for w in wit])), sorted(set(ys + [w[1] for w in wit]))], list(wit), desc,
                                   uses_div=True, leaves={"panic1", "ok"}))
     # EXP with a symbolic exponent is an abstraction that refinement does NOT define: a model that still interprets it
